@@ -89,7 +89,11 @@ fn sig_matches(pattern: &str, sig: &str) -> bool {
 /// first explored with bound b-1 (cheap, completes everywhere) and only then with bound b, so
 /// that a wall-clock cap cuts the deepest level, not whole scenarios.
 pub fn scenario_list(spec: &PropSpec, tier: Tier) -> Vec<Scenario> {
-    let base = (spec.build)(tier);
+    let mut base = (spec.build)(tier);
+    if let Ok(only) = std::env::var("NV_ONLY") {
+        // (experimentation aid: keep the scenarios whose name contains the given text)
+        base.retain(|s| s.name.contains(&only));
+    }
     if tier != Tier::Thorough {
         return base;
     }
